@@ -81,6 +81,7 @@ pub fn lockstep_check(ctx: &mut Ctx, kind: Kind, what: &str) -> bool {
     ctx.count_n("lockstep.eval_poly_calls", log.calls[3]);
     ctx.count_n("lockstep.differences_only_in_contract_garbage_region", log.garbage_region_differences);
     ctx.count_n("lockstep.perturbed_shadow_calls", log.perturbed_calls);
+    ctx.count_n("lockstep.far_position_shadow_calls", log.far_position_calls);
     ctx.stats.tuples.extend(log.tuples.iter().copied());
     if let Some(v) = log.violations.first() {
         let prim = v.split('(').next().unwrap_or("?").to_string();
@@ -155,8 +156,102 @@ pub fn verdict_props(op: &'static str, failed_ever: bool) -> Vec<&'static str> {
     p
 }
 
+/// The shard array that every Engine primitive receives (`ShardsRefMut`, a public type that engines written outside the
+/// crate use as well) against a flat model: ranges of whole shards are cleared whatever the shard size, sub-arrays
+/// and strided views alias exactly the shards they name.
+fn carrier_probe(ch: &mut Chooser, ctx: &mut Ctx) -> bool {
+    use reed_solomon_simd::engine::ShardsRefMut;
+    use std::ops::Bound;
+    let count = 1 + ch.pick_usize("carrier.count", 9);
+    let len64 = 1 + ch.pick_usize("carrier.len64", 3);
+    let mut p = simcore::prng::Prng::new(ch.seed64("carrier.seed"));
+    let mut data = vec![[0u8; 64]; count * len64 + 1];
+    for c in &mut data {
+        p.fill(c);
+        c[0] |= 1; // no block is all zero before it is cleared
+    }
+    let model = data.clone();
+    let a = p.below(count as u64 + 1) as usize;
+    let b = a + p.below((count - a) as u64 + 1) as usize; // a <= b <= count
+    let kind = p.below(7);
+    let mid = p.below(count as u64 + 1) as usize;
+    let res = ctx.guarded(false, || -> Result<(), String> {
+        let mut v = ShardsRefMut::new(count, len64, &mut data);
+        if v.len() != count || v.is_empty() {
+            return Err(format!("len() = {}, is_empty() = {} for {count} shards", v.len(), v.is_empty()));
+        }
+        for i in 0..count {
+            if v[i] != model[i * len64..(i + 1) * len64] {
+                return Err(format!("index {i} of a {count} x {len64}-block array is not blocks {}..{}", i * len64, (i + 1) * len64));
+            }
+        }
+        if count >= 2 {
+            let dist = 1 + p.below((count - 1) as u64) as usize;
+            let pos = p.below((count - dist) as u64) as usize;
+            let (x, y) = v.dist2_mut(pos, dist);
+            if x != &model[pos * len64..(pos + 1) * len64] || y != &model[(pos + dist) * len64..(pos + dist + 1) * len64] {
+                return Err(format!("dist2_mut({pos}, {dist}) does not return shards {pos} and {}", pos + dist));
+            }
+        }
+        if count >= 4 {
+            let dist = 1 + p.below(((count - 1) / 3) as u64) as usize;
+            let pos = p.below((count - 3 * dist) as u64) as usize;
+            let (w, x, y, z) = v.dist4_mut(pos, dist);
+            for (n, s) in [w, x, y, z].into_iter().enumerate() {
+                let at = pos + n * dist;
+                if s != &model[at * len64..(at + 1) * len64] {
+                    return Err(format!("dist4_mut({pos}, {dist}): view {n} is not shard {at}"));
+                }
+            }
+        }
+        {
+            let (lo, hi) = v.split_at_mut(mid);
+            if lo.len() != mid || hi.len() != count - mid {
+                return Err(format!("split_at_mut({mid}) of {count} shards gives {} + {}", lo.len(), hi.len()));
+            }
+            for i in 0..count {
+                let got = if i < mid { &lo[i] } else { &hi[i - mid] };
+                if got != &model[i * len64..(i + 1) * len64] {
+                    return Err(format!("split_at_mut({mid}): shard {i} is not where it was"));
+                }
+            }
+        }
+        // which shards the range names
+        let (from, to, text) = match kind {
+            0 => { v.zero(..); (0, count, "..".to_string()) }
+            1 => { v.zero(a..); (a, count, format!("{a}..")) }
+            2 => { v.zero(..b); (0, b, format!("..{b}")) }
+            3 => { v.zero(a..b); (a, b, format!("{a}..{b}")) }
+            4 if b > a => { v.zero(a..=b - 1); (a, b, format!("{a}..={}", b - 1)) }
+            5 if b > 0 => { v.zero(..=b - 1); (0, b, format!("..={}", b - 1)) }
+            6 if a > 0 => { v.zero((Bound::Excluded(a - 1), Bound::Excluded(b))); (a, b, format!("({}, {b}) exclusive bounds", a - 1)) }
+            _ => { v.zero(a..b); (a, b, format!("{a}..{b}")) }
+        };
+        drop(v);
+        for (n, c) in data.iter().enumerate() {
+            let inside = n >= from * len64 && n < to * len64;
+            if inside && *c != [0u8; 64] {
+                return Err(format!("zero({text}) on {count} shards of {len64} blocks leaves block {} of shard {} untouched", n % len64, n / len64));
+            }
+            if !inside && *c != model[n] {
+                return Err(format!("zero({text}) on {count} shards of {len64} blocks changes block {n} outside the range"));
+            }
+        }
+        Ok(())
+    });
+    ctx.count("probe.shard_array_contract");
+    match res {
+        Ok(Ok(())) => false,
+        Ok(Err(why)) => ctx.viol(&["C04"], "shard-array-contract", format!("carrier/{}", why.split('(').next().unwrap_or("")), format!("ShardsRefMut: {why}"), false),
+        Err(msg) => ctx.viol(&["C04", "C06"], "no-panic", format!("panic/carrier/{}", panic_sig(&msg)), format!("ShardsRefMut ({count} shards of {len64} blocks) panicked on valid arguments: {msg}"), false),
+    }
+}
+
 /// Static probes of `supports` / `validate` / constructors against R4 (C08, C06).
 fn static_probe(ch: &mut Chooser, ctx: &mut Ctx, kind: Kind, decoder: bool) -> bool {
+    if ch.chance("probe.carrier", 1, 3) && carrier_probe(ch, ctx) {
+        return true;
+    }
     let fam = kind.layer.family();
     let corners = envelope::corners();
     // a seeded slice of the corner list x {-1,0,+1}^2, plus weird values
@@ -359,6 +454,22 @@ pub enum Outcome {
     Ok,
     Err(Error),
     Panic,
+}
+
+/// Payload of the simulated caller's panic (raised with `resume_unwind`, so no panic hook runs).
+struct CallerCrash;
+
+/// Drops `value` by unwinding: a panic of the caller's own code while `value` is alive, caught by the caller.
+pub fn unwind_through<T>(value: T) {
+    let r = std::panic::catch_unwind(std::panic::AssertUnwindSafe(move || {
+        let _alive = value;
+        std::panic::resume_unwind(Box::new(CallerCrash));
+    }));
+    if let Err(p) = r {
+        if !p.is::<CallerCrash>() {
+            std::panic::resume_unwind(p);
+        }
+    }
 }
 
 pub fn outcome_of<T>(res: &Result<Result<T, Error>, String>) -> Outcome {
@@ -601,10 +712,34 @@ fn grow(held: Need, need: Need) -> Need {
     }
 }
 
+/// Marathon histories: one run in 800 keeps one object for tens of thousands of rounds (tiny configuration, mostly
+/// idle resets between two stretches of ordinary random operations), so that bookkeeping which only repeats after
+/// 2^8 or 2^16 rounds (generation counters, round stamps) comes round again while the object is being checked.
+fn gen_marathon(ch: &mut Chooser, kind: Kind) -> Option<((usize, usize, usize), usize)> {
+    if !ch.chance("marathon", 1, 800) {
+        return None;
+    }
+    let cfg = (1 + ch.pick_usize("marathon.k", 4), 1 + ch.pick_usize("marathon.r", 4), [2usize, 64, 66][ch.pick_usize("marathon.b", 3)]);
+    let cfg = if envelope::supported(kind.layer.family(), cfg.0, cfg.1) { cfg } else { (2, 2, cfg.2) };
+    // the idle stretch is a little longer than 2^8 or 2^16 rounds; see `marathon_marks`
+    let idle = if ch.chance("marathon.short", 1, 3) { 256 } else { 65_536 } + 40 + ch.pick_usize("marathon.idle", 20);
+    Some((cfg, idle))
+}
+
+/// In which idle round each of `n` positions gets its one and only mark (a shard added in a round that is then
+/// abandoned): `period - (0..5)` rounds before the end of the idle stretch, for a period of 2^8, 2^8 - 1, 2^16 or
+/// 2^16 - 1, so that a round stamp or generation counter of such a period that is compared for equality comes
+/// back to the mark's value within the first few rounds after the idle stretch, before the position is used again.
+fn marathon_marks(ch: &mut Chooser, idle: usize, n: usize) -> Vec<usize> {
+    let period = if idle < 1000 { 256 } else { 65_536 };
+    (0..n).map(|_| idle - (period - ch.pick_usize("marathon.period", 2)) + ch.pick_usize("marathon.due", 5)).collect()
+}
+
 pub fn run_encoder(ch: &mut Chooser, ctx: &mut Ctx) {
     let mut pool = Pool::default();
     let kind = gen_kind(ch);
-    let cfg = gen_config_for(ch, kind);
+    let marathon = gen_marathon(ch, kind);
+    let cfg = marathon.map_or_else(|| gen_config_for(ch, kind), |m| m.0);
     ctx.arm_poison(ch.seed64("poison.seed"), ch.weighted("poison.mode", &[1, 6, 2]) as u8);
     ev!(ctx, "encoder history: {} cfg={cfg:?} poison_mode={}", kind.name(), ctx.poison_mode);
     ctx.hash.feed_u64(kind.layer as u64 * 16 + kind.engine as u64);
@@ -626,7 +761,7 @@ pub fn run_encoder(ch: &mut Chooser, ctx: &mut Ctx) {
         cfg,
         shards: Vec::new(),
         data_seed: ch.seed64("data.seed"),
-        data_mode: ch.weighted("data.mode", &[8, 1, 1, 3]) as u8,
+        data_mode: ch.weighted("data.mode", &[8, 1, 1, 3, 3]) as u8,
         has_history: false,
         failed_round: false,
         failed_ever: false,
@@ -636,10 +771,37 @@ pub fn run_encoder(ch: &mut Chooser, ctx: &mut Ctx) {
     };
 
     // mostly short histories; one in twenty is long (many consecutive rounds and resets on one object)
-    let n_ops = if cfg.0 + cfg.1 <= 64 && cfg.2 <= 2048 && ch.chance("ops.long", 1, 20) { 60 + ch.pick_usize("ops.many", 240) } else { 4 + ch.pick_usize("ops", 40) };
+    let n_ops = if marathon.is_some() { 280 } else if cfg.0 + cfg.1 <= 64 && cfg.2 <= 2048 && ch.chance("ops.long", 1, 20) { 60 + ch.pick_usize("ops.many", 240) } else { 4 + ch.pick_usize("ops", 40) };
     for op_no in 0..n_ops {
         if ctx.stop {
             return;
+        }
+        if let (Some((_, idle)), 30) = (marathon, op_no) {
+            // the idle stretch: resets to the configuration the object has, now and then with a shard added before
+            let (k, r, b) = st.cfg;
+            ctx.count("probe.marathon_histories");
+            let marks = marathon_marks(ch, idle, k);
+            let shard = gen_shard(st.data_seed, 0, 0, b);
+            for i in 0..idle {
+                let adds = marks.iter().filter(|m| **m == i).count();
+                let res = ctx.guarded(true, || {
+                    for _ in 0..adds {
+                        let _ = obj.add(&shard);
+                    }
+                    obj.reset(k, r, b)
+                });
+                if !matches!(res, Ok(Ok(()))) {
+                    ctx.viol(&verdict_props("reset", st.failed_ever), "verdict", "verdict/reset/marathon".into(), format!("{}{:?}.reset{:?} (idle reset number {i} of a marathon history) -> {res:?}", st.kind.name(), st.cfg, st.cfg), true);
+                    return;
+                }
+            }
+            ev!(ctx, "#{op_no} {idle} idle resets to {:?}", st.cfg);
+            ctx.hash.feed_u64(idle as u64);
+            ctx.count_n("probe.marathon_idle_rounds", idle as u64);
+            st.since_reset = 0;
+            st.shards.clear();
+            st.failed_round = false;
+            st.has_history = true;
         }
         let (k, _r, b) = st.cfg;
         let fill = st.shards.len();
@@ -736,7 +898,7 @@ pub fn run_encoder(ch: &mut Chooser, ctx: &mut Ctx) {
             }
             // ---------------------------------------------------- reset (valid)
             3 => {
-                let next = gen_next_config(ch, st.kind, st.cfg);
+                let next = if marathon.is_some() && ch.chance("marathon.stay", 3, 4) { gen_sibling_config(ch, st.kind, st.cfg) } else { gen_next_config(ch, st.kind, st.cfg) };
                 let need = enc_need(st.kind, next);
                 let mut acc = AllocStats::default();
                 let res = ctx.guarded(true, || meas(&mut acc, || obj.reset(next.0, next.1, next.2)));
@@ -772,7 +934,7 @@ pub fn run_encoder(ch: &mut Chooser, ctx: &mut Ctx) {
                 st.failed_round = false;
                 st.has_history = true;
                 st.data_seed = ch.seed64("data.seed");
-                st.data_mode = ch.weighted("data.mode", &[8, 1, 1, 3]) as u8;
+                st.data_mode = ch.weighted("data.mode", &[8, 1, 1, 3, 3]) as u8;
             }
             // ---------------------------------------------------- reset (invalid) : must fail and change nothing
             4 => {
@@ -855,7 +1017,7 @@ pub fn run_encoder(ch: &mut Chooser, ctx: &mut Ctx) {
                     cfg: next,
                     shards: Vec::new(),
                     data_seed: ch.seed64("data.seed"),
-                    data_mode: ch.weighted("data.mode", &[8, 1, 1, 3]) as u8,
+                    data_mode: ch.weighted("data.mode", &[8, 1, 1, 3, 3]) as u8,
                     has_history: recycled,
                     failed_round: false,
                     failed_ever: false,
@@ -938,6 +1100,10 @@ fn enc_encode(ch: &mut Chooser, ctx: &mut Ctx, obj: &mut dyn DynEncoder, st: &mu
         vec![]
     };
     let probe_seed = ch.seed64("probe.seed");
+    let crash_drop = ch.chance("enc.crashdrop", 1, 8);
+    if crash_drop {
+        ctx.count("fault.F13.caller_unwinds_through_result");
+    }
     let mut acc = AllocStats::default();
     let mut stage = "encode";
     let out = ctx.guarded(true, || {
@@ -957,7 +1123,13 @@ fn enc_encode(ch: &mut Chooser, ctx: &mut Ctx, obj: &mut dyn DynEncoder, st: &mu
                     std::hint::black_box(n);
                 });
                 stage = "drop";
-                meas(&mut acc, || drop(result));
+                if crash_drop {
+                    // the caller panics while the result is alive and catches the panic further up: the result is
+                    // dropped by unwinding, which must start a new round like any other drop
+                    unwind_through(result);
+                } else {
+                    meas(&mut acc, || drop(result));
+                }
                 Ok(probed)
             }
         }
@@ -1011,7 +1183,9 @@ fn enc_encode(ch: &mut Chooser, ctx: &mut Ctx, obj: &mut dyn DynEncoder, st: &mu
     let recovery = match probed {
         Ok(v) => v,
         Err(why) => {
-            let props: &[&'static str] = if why.contains(" bytes, expected") { &["C12", "C04"] } else { &["C12"] };
+            // a recovery shard handed out under the wrong index (or another shard under that index) is also not the shard
+            // the code defines for that index (C02), whichever accessor or iterator adaptor delivered it
+            let props: &[&'static str] = if why.contains(" bytes, expected") { &["C12", "C04"] } else if why.contains("disagree") || why.contains("differs") { &["C12", "C02"] } else { &["C12"] };
             return ctx.viol(props, "result-contract", format!("enc-result/{}", why.split_whitespace().next().unwrap_or("")), format!("{}{:?} EncoderResult: {why}", st.kind.name(), st.cfg), true);
         }
     };
@@ -1210,7 +1384,7 @@ fn dec_need(kind: Kind, cfg: (usize, usize, usize)) -> Need {
 
 impl DecState {
     fn fresh(ch: &mut Chooser, ctx: &mut Ctx, kind: Kind, cfg: (usize, usize, usize), held: Need, has_history: bool) -> Option<Self> {
-        let stripe = make_stripe(ctx, kind.layer.family(), cfg, ch.seed64("data.seed"), ch.weighted("data.mode", &[8, 1, 1, 3]) as u8)?;
+        let stripe = make_stripe(ctx, kind.layer.family(), cfg, ch.seed64("data.seed"), ch.weighted("data.mode", &[8, 1, 1, 3, 3]) as u8)?;
         Some(Self {
             kind,
             cfg,
@@ -1257,7 +1431,8 @@ pub fn weird_index(ch: &mut Chooser, count: usize) -> usize {
 pub fn run_decoder(ch: &mut Chooser, ctx: &mut Ctx) {
     let mut pool = Pool::default();
     let kind = gen_kind(ch);
-    let cfg = gen_config_for(ch, kind);
+    let marathon = gen_marathon(ch, kind);
+    let cfg = marathon.map_or_else(|| gen_config_for(ch, kind), |m| m.0);
     ctx.arm_poison(ch.seed64("poison.seed"), ch.weighted("poison.mode", &[1, 6, 2]) as u8);
     ev!(ctx, "decoder history: {} cfg={cfg:?} poison_mode={}", kind.name(), ctx.poison_mode);
     ctx.hash.feed_u64(0xD000 + kind.layer as u64 * 16 + kind.engine as u64);
@@ -1277,10 +1452,42 @@ pub fn run_decoder(ch: &mut Chooser, ctx: &mut Ctx) {
     let Some(mut st) = DecState::fresh(ch, ctx, kind, cfg, dec_need(kind, cfg), false) else { return };
 
     // mostly short histories; one in twenty is long (many consecutive rounds and resets on one object)
-    let n_ops = if cfg.0 + cfg.1 <= 64 && cfg.2 <= 2048 && ch.chance("ops.long", 1, 20) { 60 + ch.pick_usize("ops.many", 240) } else { 4 + ch.pick_usize("ops", 40) };
+    let n_ops = if marathon.is_some() { 280 } else if cfg.0 + cfg.1 <= 64 && cfg.2 <= 2048 && ch.chance("ops.long", 1, 20) { 60 + ch.pick_usize("ops.many", 240) } else { 4 + ch.pick_usize("ops", 40) };
     for op_no in 0..n_ops {
         if ctx.stop {
             return;
+        }
+        if let (Some((_, idle)), 30) = (marathon, op_no) {
+            // the idle stretch: resets to the configuration the object has, now and then with a shard added before
+            let (k, r, b) = st.cfg;
+            ctx.count("probe.marathon_histories");
+            let marks = marathon_marks(ch, idle, k + r);
+            for i in 0..idle {
+                // every position is marked in exactly one idle round (see `marathon_marks`); all other idle rounds
+                // are nothing but a reset
+                let res = ctx.guarded(true, || {
+                    for (pos, m) in marks.iter().enumerate() {
+                        if *m == i {
+                            if pos < k {
+                                let _ = obj.add_original(pos, &st.stripe.originals[pos]);
+                            } else {
+                                let _ = obj.add_recovery(pos - k, &st.stripe.recovery[pos - k]);
+                            }
+                        }
+                    }
+                    obj.reset(k, r, b)
+                });
+                if !matches!(res, Ok(Ok(()))) {
+                    ctx.viol(&verdict_props("reset", st.failed_ever), "verdict", "verdict/reset/marathon".into(), format!("{}{:?}.reset{:?} (idle reset number {i} of a marathon history) -> {res:?}", st.kind.name(), st.cfg, st.cfg), true);
+                    return;
+                }
+            }
+            ev!(ctx, "#{op_no} {idle} idle resets to {:?}", st.cfg);
+            ctx.hash.feed_u64(idle as u64);
+            ctx.count_n("probe.marathon_idle_rounds", idle as u64);
+            st.clear_round();
+            st.since_reset = 0;
+            st.has_history = true;
         }
         let (k, r, b) = st.cfg;
         let have = st.n_o + st.n_r;
@@ -1466,7 +1673,7 @@ pub fn run_decoder(ch: &mut Chooser, ctx: &mut Ctx) {
                 // doubled or off by one, same shard size) and the next delivery repeats the previous round's
                 // positions: whatever the object derived from "which positions arrived" must not survive
                 let sibling = !st.last_round.is_empty() && ch.chance("reset.sibling", 1, 3);
-                let next = if sibling { gen_sibling_config(ch, st.kind, st.cfg) } else { gen_next_config(ch, st.kind, st.cfg) };
+                let next = if sibling || (marathon.is_some() && ch.chance("marathon.stay", 3, 4)) { gen_sibling_config(ch, st.kind, st.cfg) } else { gen_next_config(ch, st.kind, st.cfg) };
                 let need = dec_need(st.kind, next);
                 let mut acc = AllocStats::default();
                 let res = ctx.guarded(true, || meas(&mut acc, || obj.reset(next.0, next.1, next.2)));
@@ -1657,6 +1864,10 @@ fn dec_decode(ch: &mut Chooser, ctx: &mut Ctx, obj: &mut dyn DynDecoder, st: &mu
         vec![]
     };
     let probe_seed = ch.seed64("probe.seed");
+    let crash_drop = ch.chance("dec.crashdrop", 1, 8);
+    if crash_drop {
+        ctx.count("fault.F13.caller_unwinds_through_result");
+    }
     let mut acc = AllocStats::default();
     let mut stage = "decode";
     let given_o = st.given_o.clone();
@@ -1676,7 +1887,13 @@ fn dec_decode(ch: &mut Chooser, ctx: &mut Ctx, obj: &mut dyn DynDecoder, st: &mu
                     std::hint::black_box(n);
                 });
                 stage = "drop";
-                meas(&mut acc, || drop(result));
+                if crash_drop {
+                    // the caller panics while the result is alive and catches the panic further up: the result is
+                    // dropped by unwinding, which must start a new round like any other drop
+                    unwind_through(result);
+                } else {
+                    meas(&mut acc, || drop(result));
+                }
                 Ok(probed)
             }
         }
@@ -1901,7 +2118,7 @@ fn dec_decode(ch: &mut Chooser, ctx: &mut Ctx, obj: &mut dyn DynDecoder, st: &mu
     // the next round codes new data (a result that is really the previous round's would otherwise look right)
     if ch.chance("dec.newdata", 3, 4) {
         let fam = st.kind.layer.family();
-        match make_stripe(ctx, fam, st.cfg, ch.seed64("data.seed"), ch.weighted("data.mode", &[8, 1, 1, 3]) as u8) {
+        match make_stripe(ctx, fam, st.cfg, ch.seed64("data.seed"), ch.weighted("data.mode", &[8, 1, 1, 3, 3]) as u8) {
             Some(s) => st.stripe = s,
             None => return true,
         }
